@@ -308,7 +308,13 @@ Inductive qctx :=
 | QBin       (* long v = 0 + (f(x)?);          println("post", i, v); return R::Ok(v); *)
 | QStmt.     (* f(x)?;                         println("post", i);    return R::Ok(100); *)
 (* handle_expression_statement rethrows the ReturnException of `e?;` since /repo d2267e2 *)
-Record link := mkL { l_ctx : qctx; l_err : payload }.
+(* the operand of ?: the call itself, `f(x)?`, or a variable declared from it, `R t = f(x); .. t? ..`
+   (ternary.cpp evaluate_error_propagation_typed: AST_FUNC_CALL reads a copy of the returned struct, AST_VARIABLE
+   reads find_variable(name); the declaration in between is m_decl_from_ret and drops a string payload) *)
+Inductive qopnd := OpCall | OpVar.
+Record link := mkL { l_ctx : qctx; l_err : payload; l_opnd : qopnd }.
+Definition q_operand (o : qopnd) (sv : stored) : stored :=
+  match o with OpCall => sv | OpVar => m_decl_from_ret (RStruct sv) end.
 (* q_sel = i >= 1: link i returns Err(l_err)/None on entry; the last link otherwise returns Ok(q_ok) *)
 Record progQ := mkQ { q_kind : rkind; q_links : list link; q_ok : payload; q_sel : nat }.
 
@@ -356,7 +362,7 @@ Fixpoint m_chain (k : rkind) (okp : payload) (sel : nat) (i : nat) (ls : list li
                match r with
                | inr x => (EEnter i :: evs, inr x)
                | inl sv =>
-                   match m_qmark k sv, l_ctx l with
+                   match m_qmark k (q_operand (l_opnd l) sv), l_ctx l with
                    | QBad, _ => (EEnter i :: evs, inr XQBad)
                    | QThrow r', _ => (EEnter i :: evs, inl r')
                    | QVal _, QStmt =>     (* the value is discarded *)
@@ -367,7 +373,8 @@ Fixpoint m_chain (k : rkind) (okp : payload) (sel : nat) (i : nat) (ls : list li
                    | QVal z, c =>
                        let v := var_of (is_strp okp) c z in
                        (* `string v = f(x)?;` evaluates its initialiser twice when it yields a value *)
-                       let evs' := if is_strp okp && match c with QDecl => true | _ => false end then evs ++ evs else evs in
+                       let evs' := if is_strp okp && match c with QDecl => true | _ => false end &&
+                                      match l_opnd l with OpCall => true | OpVar => false end then evs ++ evs else evs in
                        (EEnter i :: evs' ++ [EPost i (bval_of v)], inl (encode (mkC (v_ok k) v)))
                    end
                end
@@ -433,10 +440,18 @@ Definition good_payload (p : payload) : bool :=
   match p with PNone => false | PInt _ => true | PStr s => negb (is_empty s) end.
 Definition is_qstmt (l : link) : bool := match l_ctx l with QStmt => true | _ => false end.
 (* conforming chains: integer Ok payload and representable failing payloads *)
+(* a variable operand is declared from the call: a failing string payload does not survive that declaration
+   (C13-decl-from-call-drops-string); None and integer payloads do *)
+Definition opnd_ok (k : rkind) (l lf : link) : bool :=
+  match l_opnd l with
+  | OpCall => true
+  | OpVar => match k with KOption => true | KResult => negb (is_strp (l_err lf)) end
+  end.
 Definition safe_q (p : progQ) : bool :=
   match q_links p with [] => false | _ => true end &&
   match q_ok p with PInt _ => true | _ => false end &&
-  forallb (fun l => good_payload (l_err l)) (q_links p).
+  forallb (fun l => good_payload (l_err l)) (q_links p) &&
+  forallb (fun l => forallb (opnd_ok (q_kind p) l) (q_links p)) (q_links p).
 
 (* ------------------------------------------------------------------------------------------ *)
 (* 6. Family C: try / checked                                                                  *)
@@ -445,7 +460,11 @@ Inductive cexpr :=
 | CLit (z : Z) | CA | CB
 | CAdd (x y : cexpr) | CSub (x y : cexpr) | CMul (x y : cexpr) | CDiv (x y : cexpr) | CMod (x y : cexpr)
 | CIdx (i : cexpr)                 (* arr[i] with int[3] arr = {5, 15, 25} *)
-| CDeref (null : bool).            (* *p with p = &x (x = 4) or p = nullptr *)
+| CDeref (null : bool)             (* *p with p = &x (x = 4) or p = nullptr *)
+(* the same three operations performed inside a called function - the error is raised one call frame below
+   the try and has to unwind through it:  long dv(long p, long q) { return p / q; }   long md(long p, long q) { return p % q; }
+   long at(long i) { int[3] t; t[0] = 5; t[1] = 15; t[2] = 25; return t[i]; } *)
+| CCallDiv (x y : cexpr) | CCallMod (x y : cexpr) | CCallIdx (i : cexpr).
 Inductive rterr := RDiv0 | RMod0 | RBounds | RNull.
 
 Definition arr_get (i : Z) : Z + rterr :=
@@ -465,6 +484,9 @@ Fixpoint ceval (a b : Z) (e : cexpr) : Z + rterr :=
   | CMod x y => bin (fun u v => if v =? 0 then inr RMod0 else inl (Z.rem u v)) x y
   | CIdx i => match ceval a b i with inr k => inr k | inl u => arr_get u end
   | CDeref null => if null then inr RNull else inl 4
+  | CCallDiv x y => bin (fun u v => if v =? 0 then inr RDiv0 else inl (Z.quot u v)) x y
+  | CCallMod x y => bin (fun u v => if v =? 0 then inr RMod0 else inl (Z.rem u v)) x y
+  | CCallIdx i => match ceval a b i with inr k => inr k | inl u => arr_get u end
   end.
 
 (* the texts the evaluator throws *)
